@@ -29,6 +29,7 @@ type Obligation struct {
 }
 
 type FuncCtx struct {
+	implFuns     map[string]*types.Interface
 	globalAxioms []*Term // assumed axioms from spec files, included only where their symbols occur
 	u        *Universe
 	d        *Decls
